@@ -2,8 +2,8 @@ package main
 
 // Facts.lean: what the hand-written float models rely on but the int64 translator cannot carry.
 //   floatConsts   every package-level constant whose value is a floating-point literal, as the binary64 bit pattern Go assigns it
-//   funcFacts     for a fixed list of functions: the sorted SET of their numeric literals ("i:<int>", "f:<bits>") and the sorted
-//                 multiset of their comparison / boolean operators ("op:<tok>") — insensitive to renaming and to reordering of statements,
+//   funcFacts     for a fixed list of functions: the sorted SET of their numeric literals ("i:<int>", "f:<bits>") (operators are NOT recorded: early return vs nested if,
+//                 De Morgan, switch vs if-chain change them freely without changing behaviour) — insensitive to renaming and to reordering of statements,
 //                 sensitive to a changed constant, a flipped comparison or a dropped/added test
 
 import (
@@ -95,15 +95,6 @@ func factsOf(fn *ast.FuncDecl, short string, decls map[string]*ast.FuncDecl, wan
 			if s, ok := litFact(n); ok {
 				fs = append(fs, s)
 			}
-		case *ast.BinaryExpr:
-			switch n.Op {
-			case token.LSS, token.GTR, token.LEQ, token.GEQ, token.EQL, token.NEQ, token.LAND, token.LOR:
-				fs = append(fs, "op:"+n.Op.String())
-			}
-		case *ast.UnaryExpr:
-			if n.Op == token.NOT {
-				fs = append(fs, "op:!")
-			}
 		}
 		return true
 	})
@@ -194,6 +185,6 @@ func genFacts(pkgs []*pkgInfo, out string) {
 		}
 		rows = append(rows, fmt.Sprintf("(%s, [%s])", leanStr(t), strings.Join(q, ", ")))
 	}
-	sb.WriteString("/-- per function: sorted numeric literals and comparison/boolean operators -/\ndef funcFacts : List (String × List String) := [\n  " + strings.Join(rows, ",\n  ") + "]\n\nend SpatialId.Gen\n")
+	sb.WriteString("/-- per function: the sorted set of numeric literals -/\ndef funcFacts : List (String × List String) := [\n  " + strings.Join(rows, ",\n  ") + "]\n\nend SpatialId.Gen\n")
 	os.WriteFile(filepath.Join(out, "Facts.lean"), []byte(sb.String()), 0o644)
 }
